@@ -290,8 +290,15 @@ class C30(HistCheck):
     def on_death(self, ctx, case, info, res):
         d = info['death']
         if d and d[0] in ('LIVENESS', 'CPU'):
-            res['violations'].append({'cls': 'liveness', 'sig': {'engine': engine_of(case['options']), 'kind': d[0]},
-                                      'detail': {'death': d[0], 'last_command_index': sum(1 for o in info['outs'] if o is not None)}})
+            hang_at = sum(1 for o in info['outs'] if o is not None)
+            # root-cause feature: was an assertion level pushed before the hanging check-sat?
+            pushed = None
+            cmds = case['hist']['commands']
+            if hang_at < len(cmds):
+                # (an assertion level that was pushed and popped again still leaves its activation variable behind)
+                pushed = any(c['k'] == 'push' for c in cmds[:hang_at])
+            res['violations'].append({'cls': 'liveness', 'sig': {'engine': engine_of(case['options']), 'kind': d[0], 'pushed': pushed},
+                                      'detail': {'death': d[0], 'last_command_index': hang_at}})
 
     def oracle(self, ctx, case, info, res):
         mx = max([t for t in info['ticks'] if t is not None] or [0])
